@@ -52,7 +52,24 @@ func (g *gen) time() int {
 
 func (g *gen) query() Query {
 	g.tr = nil
-	g.constraint(2+g.pick(3), false)
+	switch g.pick(4) {
+	case 0:
+		// and(permanode-ish, X) / and(X, permanode-ish): the shapes the planner restricts sources for
+		i := g.alloc()
+		n := Node{K: "and"}
+		if g.chance(2) {
+			n.A = g.pnish()
+			n.B = g.constraint(1+g.pick(3), false)
+		} else {
+			n.A = g.constraint(1+g.pick(3), false)
+			n.B = g.pnish()
+		}
+		g.tr[i-1] = n
+	case 1:
+		g.pnish()
+	default:
+		g.constraint(2+g.pick(3), false)
+	}
 	sorts := []string{"unsorted", "blobref", "created", "lastmod", "unspecified", "createdAsc", "blobref", "created", "lastmodAsc"}
 	if g.classic {
 		sorts = []string{"unsorted", "blobref", "blobref", "unspecified"}
@@ -62,6 +79,24 @@ func (g *gen) query() Query {
 		q.Limit = 1 + g.pick(5)
 	}
 	return q
+}
+
+// pnish generates a constraint that onlyMatchesPermanode accepts.
+func (g *gen) pnish() int {
+	i := g.alloc()
+	switch g.pick(5) {
+	case 0:
+		g.tr[i-1] = Node{K: "type", S: "permanode"}
+	case 1:
+		if v := g.wf.lookupValue([]string{"foo", "bar"}[g.pick(2)]); v != 0 {
+			g.tr[i-1] = Node{K: "pn", S: "camliNodeType", V: v}
+		} else {
+			g.pnNode(i, 1)
+		}
+	default:
+		g.pnNode(i, 1)
+	}
+	return i
 }
 
 // constraint generates a constraint at a fresh index and returns it. fd = must be a
@@ -176,10 +211,10 @@ func (g *gen) pnNode(i, depth int) {
 		n.HasAt = true
 		n.At = g.time()
 	}
-	if g.chance(6) {
+	if !g.classic && g.chance(6) {
 		n.Hid = true
 	}
-	if g.chance(6) {
+	if !g.classic && g.chance(6) {
 		if g.chance(2) {
 			n.HasMtb, n.Mtb = true, g.time()
 		} else {
